@@ -154,7 +154,7 @@ def jobs(tier, seed):
         sk = automaton(sh)
         alphabet = sorted({a for (_, a, _) in sk.arcs if a != EPS})
         out += split_job(dict(case="wfsa_nc", params=dict(shape=sh, strings=[list(x) for x in all_strings(alphabet, 3)], always=list(range(len(sk.arcs), sk.K)))), bits)
-    plan = [("A-EPS", [0, 1]), ("A-EPS2", [0]), ("A-S1", []), ("A-S2", [])] if quick else \
+    plan = [("A-EPS", [0, 1]), ("A-EPS2", [0]), ("A-S1", []), ("A-S2", []), ("A-ISO", [])] if quick else \
         [("A-EPS", [0, 1, 2, 3, 4]), ("A-EPS2", [0, 1]), ("A-S1", []), ("A-S2", []), ("A-DAG", [0, 1, 2]), ("A-DEAD", [0])]
     L = 3 if quick else 4
     for sh, bits in plan:
